@@ -550,13 +550,25 @@ def rule_strtab(ctx):
     f._globals[(CODE, 'compression_algorithms')] = [(n, nm, make_compress(nm)) for n, nm in rows]
     f._globals[(CODE, 'UtilityCode')] = Inst(None, {'load_cached': lambda *a, **k: None}, label='UtilityCode')
 
-    def write_escaped(w, b, name):
+    # the writers of the table data: _write_escaped_cstring_const is folded as written; the escaper it calls is the folded StringEncoding.escape_byte_string and the
+    # text that reaches _write_cstring_const is read back with the reference C reader of pC11 - `data` holds the bytes a C compiler sees (the cut into pieces is C10-CSTR-CUT's)
+    from .pC11 import _escaper, c_read, CReadError
+    unreadable = []
+
+    def write_cstring(w, escaped, name, length=None):
+        try:
+            b = c_read(escaped)
+        except CReadError as x:
+            unreadable.append('the text written for the C array `%s` is not a readable C string literal (%s)' % (name, x))
+            b = b''
         data.append(bytes(b))
         w.attrs['putln']('DATA %s %d' % (name, len(data) - 1))
-    f._globals[(CODE, '_write_escaped_cstring_const')] = write_escaped
+    f._globals[(CODE, '_write_cstring_const')] = write_cstring
+    f._globals[(ENCODING, 'escape_byte_string')] = _escaper(ctx)
     plain = [None, [('hello world', False)], [('née €', False), ('zz top', False)]]
     interned = [None, [('abc', True)], [('name2', True), ('x', True)]]
-    bytes_c = [None, [b'x'], [b'ab', b'longer\x00bytes']]       # (handed over in reverse, i.e. unsorted, order)
+    # (handed over in reverse, i.e. unsorted, order); in either order of the last two the seam between them reads `??=` - a trigraph unless the table data is escaped as a whole
+    bytes_c = [None, [b'x'], [b'?=a?', b'?=b?\x00bytes']]
     filler = ('lorem ipsum ' * 30, False)
     bad = {}
     for pl, it, by, fill in itertools.product(plain, interned, bytes_c, (False, True)):
@@ -600,6 +612,9 @@ def rule_strtab(ctx):
         r.inst(key, sample='%d constants, branches %s' % (len(expect), sorted(results)))
         if fill and len(results) < 2:
             bad.setdefault('no-compressed-branch', (key, 'no compressed branch is emitted for %d bytes of string data although every algorithm shrinks it' % sum(len(x[1]) for x in registry.values() or [('', b'')])))
+        for p in unreadable:
+            bad.setdefault('c-text', (key, p))
+        del unreadable[:]
         for p in problems:
             cls = 'bit-width' if 'truncated' in p else 'index' if 'reads' in p else 'slot-twice' if 'twice' in p else 'branch-data'
             bad.setdefault(cls, (key, p))
